@@ -6,7 +6,7 @@ _LIGHT = _VALUE + ["sweep-unsigned", "sweep-signed-negative", "sweep-signed-both
 
 CHECK = {
     "level": "model_checking",
-    "technique": "stateless bounded-exhaustive enumeration of every bf_* function (macro-generated table of 48 ref/set pairs, 7 swap helpers, 8 range predicates, compared at start-up with the definitions found in the header being compiled) against shift/mask arithmetic on uint64_t; floats compared by bit pattern; the same enumeration is run on four builds of the header: -O2 with the swap builtins, -O2 and -O1 with the portable swap bodies (these three under ASan, UBSan and -fsanitize=alignment), and -O2 with the swap builtins without any sanitizer instrumentation (the optimiser then uses type-based alias analysis on the codec's accesses as it does in a release build)",
+    "technique": "stateless bounded-exhaustive enumeration of every bf_* function (macro-generated table of 48 ref/set pairs, 7 swap helpers, 8 range predicates, compared at start-up with the definitions found in the header being compiled; a forward prototype -- a match whose statement ends in `;` before any `{` -- is not a definition) against shift/mask arithmetic on uint64_t; floats compared by bit pattern; the same enumeration is run on four builds of the header: -O2 with the swap builtins, -O2 and -O1 with the portable swap bodies (these three under ASan, UBSan and -fsanitize=alignment), and -O2 with the swap builtins without any sanitizer instrumentation (the optimiser then uses type-based alias analysis on the codec's accesses as it does in a release build)",
     "rule": "odometer over (build, function row, value pattern, offset 0..7): complete sweeps of all 2^16 / 2^24 patterns (thorough: all 2^32 of the 32-bit integer and f32 rows, of swap24/swap32 and of inrange_u24/s24) in cases of at most 2^20 patterns; for every row the structured family {every octet lane x every octet value on backgrounds 00/ff/a5, single bits and complements, 2^k+-1 and -(2^k)+-1, width and sign boundaries, the unit test's constants, float classes incl. signalling/quiet NaN payloads} at every offset in an exact-size block and in a canaried block; for every row x element type {uint16_t, uint32_t, uint64_t} the edges, test constants and float classes at every offset inside an object of that declared type which is written and read back through lvalues of that type directly around the codec call (store: whole image compared; load: before and after the image is rewritten); the portable-swap builds repeat everything except the 2^32 row/predicate sweeps and sweep the 24-bit rows at a rotating offset; the quantifier's '10^7 random values' are replaced by this structured family; non-trivial = the pattern's octets are not all equal (octet order observable), sweeps and typed images always, inrange: argument not 0",
     "assumptions": ["little-endian host with 8-bit bytes and IEEE-754 floats: native order is checked as little-endian, the SYSTEM_ENDIANNESS_BIG and 16-bit-byte branches of the header are not compiled",
                     "the header as committed is checked; tools/make-binary-format.scm is not executed",
